@@ -38,6 +38,8 @@ class C12(Hist1Prop):
     def gen_case(self, rng, k, tier):
         if k % 32 == 9:
             return coll_parts.gen(rng)
+        if k % 16 == 3:
+            return self.gen_coll_adaptive(rng)
         if rng.random() < 0.4:
             return self.gen_nd(rng)
         b, pairs, w = history1.small_bins(rng, adaptive_share=0.45)
@@ -76,6 +78,71 @@ class C12(Hist1Prop):
             tgt = rng.choice([0, 2, 2, 1])
             ops.append(self.mutation1(rng, tgt, b, pairs, w))
         return {"kind": "hist1", "ops": ops, "tags": ["deriv:" + deriv], "tolerance": True}
+
+    # ------------------------------------------------------------------ a collection over an ADAPTIVE binning
+    def gen_coll_adaptive(self, rng):
+        """members created one after the other over an adaptive fixed-width binning (each creation may grow the bins),
+        then collection.copy(), then fills far outside into members of the copy / of the original: every member and every
+        copied member is a histogram returned by a public operation, so none of them may change or lose its shape when a
+        sibling, its source or its copy grows.  In the 1-D op language of the model: empty + fill_n per member, copy per
+        member, then the mutations; the implementation goes through HistogramCollection.create / copy (run_coll_adaptive)."""
+        w = rng.choice([1.0, 0.5, 2.0])
+        b = gen1.fixed_json(w, 0, 0, adaptive=True)
+        m = rng.choice([2, 2, 3])
+        ops = []
+        for k in range(m):
+            base = rng.choice([0, 0, 4, -6, 10])
+            vs = [base + rng.randint(0, 12) / 4 for _ in range(rng.choice([1, 2, 4]))]
+            ops.append({"op": "empty", "out": k, "binning": b, "keep": True, "_coll": "member"})
+            ops.append({"op": "fill_n", "h": k, "vs": gen1.enc_vals(vs), "ws": None, "_coll": "create", "_name": f"m{k}"})
+        for k in range(m):
+            ops.append({"op": "copy", "h": k, "out": m + k, "_coll": "copy", "_index": k})
+        for _ in range(rng.randint(1, 4)):
+            tgt = rng.randrange(2 * m)
+            kind = rng.choice(["fill_far", "fill_far", "fill_n", "imul", "fill"])
+            if kind == "fill_far":
+                ops.append({"op": "fill", "h": tgt, "v": rs(rng.choice([17.5, -14.25, 25.0, -21.0])), "w": "2", "wk": "pyint"})
+            elif kind == "fill":
+                ops.append({"op": "fill", "h": tgt, "v": rs(rng.randint(0, 12) / 4), "w": "1", "wk": "pyint"})
+            elif kind == "fill_n":
+                ops.append({"op": "fill_n", "h": tgt, "vs": gen1.enc_vals([rng.choice([13.5, -9.5]), 1.25]), "ws": None})
+            else:
+                ops.append({"op": "imul", "h": tgt, "c": "3", "k": "pyint"})
+        return {"kind": "hist1", "sub": "collad", "ops": ops, "tags": ["collection", "collection:adaptive", f"members:{m}"],
+                "tolerance": True}
+
+    @staticmethod
+    def run_coll_adaptive(case):
+        from physt.histogram_collection import HistogramCollection
+        from physt.histogram1d import Histogram1D
+        from .. import impl1
+        s = impl1.Store()
+        outs, log = [], []
+        coll = copied = None
+        for op in case["ops"]:
+            tag = op.get("_coll")
+            try:
+                if tag == "member":
+                    if coll is None:
+                        coll = HistogramCollection(binning=impl1.mk_binning(op["binning"]))
+                    # placeholder for the register until `create` fills it (keeps the op lists of both sides aligned)
+                    s.set(op["out"], Histogram1D(binning=impl1.mk_binning(op["binning"])))
+                    ret = "ok"
+                elif tag == "create":
+                    s.set(op["h"], coll.create(op["_name"], [impl1.fl(v) for v in op["vs"]]))
+                    ret = "ok"
+                elif tag == "copy":
+                    if op["_index"] == 0:
+                        copied = coll.copy()
+                    s.set(op["out"], copied[op["_index"]])
+                    ret = "ok"
+                else:
+                    ret = impl1.step(s, op, log)
+            except Exception as e:
+                log.append(f"{op['op']}: {type(e).__name__}: {e}"[:200])
+                ret = "REFUSED"
+            outs.append({"ret": ret, "regs": [None if h is None else impl1.snap1(h) for h in s.regs]})
+        return {"outs": outs, "log": log}
 
     def mutation1(self, rng, tgt, b, pairs, w):
         kind = rng.choice(["fill", "fill", "fill_n", "iadd", "imul", "idiv", "set_dtype", "normalize", "merge", "isub", "fill_far"])
@@ -156,6 +223,8 @@ class C12(Hist1Prop):
     def run_impl(self, case):
         if case.get("sub") == "coll":
             return coll_parts.run_impl(case)
+        if case.get("sub") == "collad":
+            return self.run_coll_adaptive(case)
         if case.get("kind") != "histn":
             return super().run_impl(case)
         from .. import implnd
@@ -237,6 +306,13 @@ class C12(Hist1Prop):
             yield from coll_parts.shrink_candidates(case)
             return
         ops = case["ops"]
+        if case.get("sub") == "collad":
+            first_mut = max(i for i, o in enumerate(ops) if o.get("_coll")) + 1
+            for k in range(len(ops) - 1, first_mut - 1, -1):
+                c = copy.deepcopy(case)
+                del c["ops"][k]
+                yield c
+            return
         first_mut = next(i for i, o in enumerate(ops) if o.get("out") == 2) + 1
         for k in range(len(ops) - 1, first_mut - 1, -1):
             c = copy.deepcopy(case)
@@ -289,6 +365,9 @@ class C12(Hist1Prop):
         if case.get("sub") == "coll":
             return coll_parts.mutation_changed_target(case, io)
         outs = io["outs"]
+        if case.get("sub") == "collad":
+            first_mut = max(i for i, o in enumerate(case["ops"]) if o.get("_coll")) + 1
+            return any(outs[k]["regs"] != outs[k - 1]["regs"] for k in range(first_mut, len(outs)))
         first_mut = next((i for i, o in enumerate(case["ops"]) if o.get("out") == 2), 0) + 1
         return any(outs[k]["regs"] != outs[k - 1]["regs"] for k in range(first_mut, len(outs)))
 
